@@ -31,11 +31,10 @@ from edxml.ontology import Ontology
 
 
 def _get_relevant_parser_events(foreign_element_tags):
-    # Note that the EDXML tags that we want to visit while parsing all have
-    # an end tag, visiting the start tag is not needed. This may not be the
-    # case for foreign elements, so we catch both both start and end events
-    # in case any foreign element tags are registered.
-    return ['start', 'end'] if foreign_element_tags else ['end']
+    # Note that all elements that we want to visit while parsing are
+    # processed when they are complete, which is when their end tag
+    # has been parsed. Visiting the start tag is not needed.
+    return ['end']
 
 
 class EDXMLParserBase(object):
@@ -347,20 +346,6 @@ class EDXMLParserBase(object):
 
         for action, elem in self._element_iterator:
 
-            if action == 'start':
-                if not elem.tag.startswith('{http://edxml.org/edxml}'):
-                    if not elem.tag.startswith('{'):
-                        raise EDXMLValidationError(
-                            "Parser received an element without an XML namespace: '%s'" % elem.tag
-                        )
-                    # We have a foreign element.
-                    self._parsed_foreign_element(elem)
-
-                # We process start events only for foreign elements. All EDXML elements that we
-                # visit while parsing have both a start and end tag and we only process on the
-                # end tags.
-                continue
-
             if self.__root_element is None:
                 self.__find_root_element(elem)
 
@@ -448,8 +433,13 @@ class EDXMLParserBase(object):
                     self.__parsed_initial_ontology = True
 
             elif not elem.tag.startswith('{http://edxml.org/edxml}'):
-                # We have a foreign element. We do not process those here.
-                continue
+                if not elem.tag.startswith('{'):
+                    raise EDXMLValidationError(
+                        "Parser received an element without an XML namespace: '%s'" % elem.tag
+                    )
+                # We have a foreign element. Now that its end tag
+                # has been parsed, the element is complete.
+                self._parsed_foreign_element(elem)
 
             else:
                 raise EDXMLValidationError('Parser received unexpected element with tag %s' % elem.tag)
